@@ -22,7 +22,7 @@ RULE = ("random histories (<= 12 events, thorough <= 40) over {connect, peer clo
         "linktest timer expiry} in passive "
         "and active mode (own Select.req answered, answered with a foreign system, left to T6), plus connect-vs-inbound "
         "Select.req races under yield injection; distinct by (mode, event sequence | race schedule seed); non-trivial "
-        "when at least one message was injected while connected")
+        "when at least one message was injected while connected; plus: bursts of 300-1100 Linktest.req in one segment; a link lost inside a frame that sits behind a complete message in the same segment")
 ASSUMPTIONS = ["select status codes are not judged (only that a response of the matching type with the request's system bytes "
                "is sent)", "unsolicited or non-matching *.rsp frames: only 'no crash, state stays legal' is demanded and the "
                "model is resynchronised from the observed state", "after Separate.req both NOT SELECTED and NOT CONNECTED are "
